@@ -66,7 +66,7 @@ func (a *Act) bindHavoc(v ssa.Value, reach string, st *State) string {
 	a.env[v] = n
 	g.assumeIf(reach, rangeFact(v.Type(), n))
 	if st != nil {
-		g.assumeIf(reach, heapValWF(v.Type(), n, st))
+		g.assumeIf(reach, g.heapValWF(v.Type(), n, st))
 	}
 	return n
 }
@@ -83,10 +83,10 @@ func (a *Act) exec(instr ssa.Instruction, st *State, reach string, b *ssa.BasicB
 			}
 		}
 	case *ssa.MakeMap:
-		ref := a.alloc(st, a.nm(in.Name()))
+		ref := a.alloc(st, a.nm(in.Name()), allocType{key: "obj:" + in.Type().Underlying().String(), typ: in.Type().Underlying()})
 		a.bind(in, ref)
 	case *ssa.MakeChan:
-		ref := a.alloc(st, a.nm(in.Name()))
+		ref := a.alloc(st, a.nm(in.Name()), allocType{key: "obj:" + in.Type().Underlying().String(), typ: in.Type().Underlying()})
 		a.bind(in, ref)
 	case *ssa.MapUpdate:
 		m := a.val(in.Map)
@@ -103,7 +103,7 @@ func (a *Act) exec(instr ssa.Instruction, st *State, reach string, b *ssa.BasicB
 			g.unsupported++
 		}
 	case *ssa.Alloc:
-		ref := a.alloc(st, a.nm(in.Name()))
+		ref := a.alloc(st, a.nm(in.Name()), objAlloc(in.Type().Underlying().(*types.Pointer).Elem()))
 		a.bind(in, fmt.Sprintf("(mkPtr %s 0)", ref))
 	case *ssa.BinOp:
 		a.bind(in, a.binop(in, reach))
@@ -184,11 +184,11 @@ func (a *Act) exec(instr ssa.Instruction, st *State, reach string, b *ssa.BasicB
 			if in.CommaOk {
 				vn := g.def(a.nm(in.Name()+"_v"), g.sortOf(mt.Elem()), v)
 				a.setTuple(in, []string{vn, g.def(a.nm(in.Name()+"_ok"), "Bool", has)})
-				g.assumeIf(reach, heapValWF(mt.Elem(), vn, st))
+				g.assumeIf(reach, g.heapValWF(mt.Elem(), vn, st))
 				g.assumeIf(reach, rangeFact(mt.Elem(), vn))
 			} else {
 				a.bind(in, v)
-				g.assumeIf(reach, heapValWF(mt.Elem(), a.env[in], st))
+				g.assumeIf(reach, g.heapValWF(mt.Elem(), a.env[in], st))
 				g.assumeIf(reach, rangeFact(mt.Elem(), a.env[in]))
 			}
 		} else {
@@ -199,7 +199,7 @@ func (a *Act) exec(instr ssa.Instruction, st *State, reach string, b *ssa.BasicB
 	case *ssa.MakeSlice:
 		n, c := a.val(in.Len), a.val(in.Cap)
 		a.safety("make-neg", in, reach, fmt.Sprintf("(and (<= 0 %s) (<= %s %s))", n, n, c), "makeslice: len/cap out of range")
-		ref := a.alloc(st, a.nm(in.Name()))
+		ref := a.alloc(st, a.nm(in.Name()), arrAlloc(in.Type().Underlying().(*types.Slice).Elem()))
 		a.bind(in, fmt.Sprintf("(mkSlice %s 0 %s %s)", ref, n, c))
 	case *ssa.Store:
 		p := a.val(in.Addr)
@@ -309,7 +309,7 @@ func (a *Act) havocValue(v ssa.Value, reach string, st *State) {
 			n := g.havoc(a.nm(v.Name()+fmt.Sprintf("_%d", i)), g.sortOf(tup.At(i).Type()))
 			g.assumeIf(reach, rangeFact(tup.At(i).Type(), n))
 			if st != nil {
-				g.assumeIf(reach, heapValWF(tup.At(i).Type(), n, st))
+				g.assumeIf(reach, g.heapValWF(tup.At(i).Type(), n, st))
 			}
 			vs = append(vs, n)
 		}
@@ -339,7 +339,7 @@ func (a *Act) makeIface(t types.Type, v string, st *State, base string) string {
 		return v
 	}
 	// struct or array value: boxed in a fresh immutable heap cell
-	ref := a.alloc(st, base+"_box")
+	ref := a.alloc(st, base+"_box", objAlloc(t))
 	a.store(st, t, ref, "0", v)
 	return fmt.Sprintf("(mkIface %d (bPtr (mkPtr %s 0)))", tag, ref)
 }
@@ -408,12 +408,12 @@ func (a *Act) typeAssert(in *ssa.TypeAssert, st *State, reach string) {
 	if in.CommaOk {
 		vn := g.def(a.nm(in.Name()+"_v"), g.sortOf(in.AssertedType), fmt.Sprintf("(ite %s %s %s)", okT, v, g.zero(in.AssertedType)))
 		a.setTuple(in, []string{vn, g.def(a.nm(in.Name()+"_ok"), "Bool", okT)})
-		g.assumeIf(reach, heapValWF(in.AssertedType, vn, st))
+		g.assumeIf(reach, g.heapValWF(in.AssertedType, vn, st))
 		g.assumeIf(reach, rangeFact(in.AssertedType, vn))
 	} else {
 		a.safety("assert-type", in, reach, okT, "type assertion holds: "+shortName(in.AssertedType.String()))
 		a.bind(in, v)
-		g.assumeIf(reach, heapValWF(in.AssertedType, a.env[in], st))
+		g.assumeIf(reach, g.heapValWF(in.AssertedType, a.env[in], st))
 		g.assumeIf(reach, rangeFact(in.AssertedType, a.env[in]))
 	}
 }
@@ -471,6 +471,24 @@ func knownBits(v ssa.Value, depth int) (maxBits int, lowZeros int) {
 		if x.Op == token.AND {
 			if k, ok := constInt(x.Y); ok && k.Sign() >= 0 && k.BitLen() < maxBits {
 				maxBits = k.BitLen()
+			}
+		}
+		if x.Op == token.OR || x.Op == token.XOR || x.Op == token.ADD {
+			mx, lx := knownBits(x.X, depth+1)
+			my, ly := knownBits(x.Y, depth+1)
+			m := mx
+			if my > m {
+				m = my
+			}
+			if x.Op == token.ADD && !(mx <= ly || my <= lx) {
+				m++
+			}
+			if m < maxBits {
+				maxBits = m
+			}
+			lowZeros = lx
+			if ly < lx {
+				lowZeros = ly
 			}
 		}
 		if x.Op == token.SHR {
@@ -550,6 +568,18 @@ func (g *Gen) binopTerm(op token.Token, t, rt types.Type, x, y string, X, Y ssa.
 		return fmt.Sprintf("(ite (>= %s 0) (mod %s %s) (- (mod (- %s) %s)))", x, x, y, x, y)
 	case token.EQL, token.NEQ:
 		eq := fmt.Sprintf("(= %s %s)", x, y)
+		if at, ok := t.Underlying().(*types.Array); ok && at.Len() <= 32 {
+			// element-wise comparison of small arrays (no array equality: extensionality reasoning is expensive)
+			var parts []string
+			for i := int64(0); i < at.Len(); i++ {
+				parts = append(parts, fmt.Sprintf("(= (select %s %d) (select %s %d))", x, i, y, i))
+			}
+			if len(parts) == 0 {
+				eq = "true"
+			} else {
+				eq = "(and " + strings.Join(parts, " ") + ")"
+			}
+		}
 		other := ""
 		if Y != nil && isNilConst(Y) || y == "nilSlice" || y == "nilPtr" {
 			other = x
@@ -722,18 +752,19 @@ func (a *Act) loadedWF(t types.Type, v string, st *State) string {
 		}
 		return "(and " + strings.Join(parts, " ") + ")"
 	}
-	return heapValWF(t, v, st)
+	return a.g.heapValWF(t, v, st)
 }
 
 // heap well-formedness of a loaded value (Go memory safety): refs are allocated, slices are sane
-func heapValWF(t types.Type, v string, st *State) string {
-	switch t.Underlying().(type) {
+func (g *Gen) heapValWF(t types.Type, v string, st *State) string {
+	switch u := t.Underlying().(type) {
 	case *types.Slice:
-		return fmt.Sprintf("(and (< (sref %s) %s) (<= 0 (soff %s)) (<= 0 (sllen %s)) (<= (sllen %s) (scap %s)) (=> (= (sref %s) 0) (= (scap %s) 0)))", v, st.Next, v, v, v, v, v, v)
+		return fmt.Sprintf("(and (< (sref %s) %s) (= (sref %s) (sref %s)) (<= 0 (soff %s)) (<= 0 (sllen %s)) (<= (sllen %s) (scap %s)) (=> (= (sref %s) 0) (= (scap %s) 0)) (=> (> (sref %s) 0) (%s (rtype (sref %s)))))", v, st.Next, v, v, v, v, v, v, v, v, v, g.typePred("ar", u.Elem()), v)
 	case *types.Pointer:
-		return fmt.Sprintf("(and (< (pref %s) %s) (=> (= (pref %s) 0) (= (poff %s) 0)))", v, st.Next, v, v)
+		return fmt.Sprintf("(and (< (pref %s) %s) (=> (= (pref %s) 0) (= (poff %s) 0)) (=> (> (pref %s) 0) (%s (rtype (pref %s)))))", v, st.Next, v, v, v, g.typePred("pt", u.Elem()), v)
 	case *types.Map, *types.Chan:
-		return fmt.Sprintf("(and (>= %s 0) (< %s %s))", v, v, st.Next)
+		// a map/channel object contains nothing else: its allocation type is exactly the map/channel type
+		return fmt.Sprintf("(and (>= %s 0) (< %s %s) (=> (not (= %s 0)) (= (rtype %s) %d)))", v, v, st.Next, v, v, g.allocTag(allocType{key: "obj:" + u.String(), typ: u}))
 	case *types.Interface:
 		return fmt.Sprintf("(and (=> (is-bPtr (ibox %s)) (< (pref (ubPtr (ibox %s))) %s)) (=> (is-bSlice (ibox %s)) (< (sref (ubSlice (ibox %s))) %s)) (=> (= (itag %s) 0) (= %s nilIface)))", v, v, st.Next, v, v, st.Next, v, v)
 	}
@@ -781,7 +812,7 @@ func (a *Act) convert(in *ssa.Convert, st *State, reach string) {
 	if isString(from) {
 		if ts, ok := to.(*types.Slice); ok {
 			if b, ok := ts.Elem().Underlying().(*types.Basic); ok && b.Kind() == types.Uint8 {
-				ref := a.alloc(st, a.nm(in.Name()))
+				ref := a.alloc(st, a.nm(in.Name()), arrAlloc(ts.Elem()))
 				st.H["I"] = g.def("HI", heapSort["I"], fmt.Sprintf("(store %s %s (arrofseq %s))", st.H["I"], ref, x))
 				a.bind(in, fmt.Sprintf("(mkSlice %s 0 (slen %s) (slen %s))", ref, x, x))
 				return
